@@ -505,10 +505,11 @@ impl Python {
                     format!(
                         "{indent}\"\"\"\n{indented_comments}\n{indent}\"\"\"",
                         indent = indent,
-                        // A `"""` inside the text would end the docstring early.
+                        // A `"""` inside the text would end the docstring early, and a
+                        // backslash would start an escape sequence (`\U`, `\x`, `\N` are errors).
                         indented_comments = comments
                             .iter()
-                            .map(|v| v.replace("\"\"\"", "\\\"\\\"\\\""))
+                            .map(|v| v.replace('\\', "\\\\").replace("\"\"\"", "\\\"\\\"\\\""))
                             .map(|v| format!("{}{}", indent, v))
                             .collect::<Vec<String>>()
                             .join("\n"),
